@@ -247,7 +247,38 @@ fn gen_single(r: &mut Rng) -> PosSubtable {
     }
 }
 
+/// A record that is empty or touches exactly one field: whether a non-empty record has an effect then
+/// depends on the direction (an x-advance does nothing in vertical text, a y-advance nothing in horizontal).
+fn axis_record(r: &mut Rng) -> ValueRecord {
+    let v = loop { let v = small(r); if v != 0 { break v } };
+    match r.below(7) {
+        0 => ValueRecord::ZERO,
+        1 | 2 => ValueRecord::xadv(v),
+        3 | 4 => ValueRecord::new(0, 0, 0, v),
+        5 => ValueRecord::new(v, 0, 0, 0),
+        _ => ValueRecord::new(0, v, 0, 0),
+    }
+}
+
+const DENSE_POOL: &[u16] = &[1, 2, 3, 4, 7];
+
 fn gen_pair(r: &mut Rng) -> PosSubtable {
+    if r.chance(2, 5) {
+        // dense pairs over the small pool the texts favour: chains X Y Z where (X,Y) and (Y,Z) are both pairs
+        let mut firsts = subset(r, DENSE_POOL, 3, 4);
+        if firsts.is_empty() {
+            firsts.push(1);
+        }
+        let mut sets = Vec::new();
+        for _ in &firsts {
+            let mut seconds = subset(r, DENSE_POOL, 3, 4);
+            if seconds.is_empty() {
+                seconds.push(2);
+            }
+            sets.push(seconds.iter().map(|g| (*g, axis_record(r), axis_record(r))).collect::<Vec<(u16, ValueRecord, ValueRecord)>>());
+        }
+        return PosSubtable::Pair1 { coverage: coverage(r, &firsts), pair_sets: sets, vf: vfmt(r) };
+    }
     let firsts = subset(r, &all_glyphs(), 1, 3);
     if r.chance(1, 2) {
         let mut sets = Vec::new();
@@ -559,7 +590,7 @@ fn gen_text(r: &mut Rng, profile: Profile) -> Vec<u16> {
     } as usize;
     let mut t: Vec<u16> = Vec::new();
     while t.len() < len {
-        if profile == Profile::Kern && r.chance(1, 2) {
+        if (profile == Profile::Kern && r.chance(1, 2)) || ((profile == Profile::Adjust || profile == Profile::Mixed) && r.chance(2, 5)) {
             t.push(*r.pick(&[1u16, 2, 3, 4, 7]));
             continue;
         }
